@@ -629,15 +629,21 @@ class BaseTrigger(ABC):
                 continue
             for vc_id in context.valid_conditions.keys():
                 condition_to_pending_triggers[vc_id].discard(trigger.trigger_id)
-            trigger_run_ids = trigger.generate_trigger_run_ids(context)
-            for run_id in trigger_run_ids:
-                if self.claim_trigger_run(run_id):
-                    args = trigger.get_arguments(context)
-                    self.execute_task(trigger.task_id, args)
-                    # For OR logic, continue processing other run IDs
-                    # For AND logic, only one run ID is generated, so this has no effect
-                    if trigger.logic == CompositeLogic.AND:
-                        break
+            # AND over several conditions: one launch for the whole set of valid conditions.
+            # OR, or a trigger on a single condition: one launch per occurrence, each with a
+            # context that holds only that occurrence (so its arguments come from it).
+            if trigger.logic == CompositeLogic.AND and len(trigger.condition_ids) > 1:
+                launch_contexts = [context]
+            else:
+                launch_contexts = [
+                    TriggerContext(valid_conditions={vc_id: vc})
+                    for vc_id, vc in context.valid_conditions.items()
+                ]
+            for launch_context in launch_contexts:
+                for run_id in trigger.generate_trigger_run_ids(launch_context):
+                    if self.claim_trigger_run(run_id):
+                        args = trigger.get_arguments(launch_context)
+                        self.execute_task(trigger.task_id, args)
         # Clean up the valid conditions that are no longer needed
         # Because all the triggers that required already ran
         conditions_to_clean = [
